@@ -28,16 +28,24 @@ def main(tier, replay=None):
         base = c06.CacheSet(E, "base"); base.drop(); os.makedirs(base.dir)
         c06.copy_tree(E.gocache, base.go); c06.copy_tree(E.garblecache, base.garble)
         # isolated references
+        # program 0 is also built with -literals and a string injected by the linker: the same sources and garble flags as job (0, 1),
+        # so that the two meet in the caches unless the cache keys keep them apart (C12)
+        LDX = ["-ldflags=-X=main.gvInjected=injected-by-the-linker"]
         jobs = []
         for i, prog in enumerate(progs):
             for j, fl in enumerate(flagsets if i == 0 else flagsets[:1]):
-                jobs.append((i, j, prog, fl))
+                jobs.append((i, j, prog, fl, []))
+            if i == 0:
+                jobs.append((i, 2, prog, flagsets[1], LDX))
         refs = {}
         roots = {}
-        for (i, j, prog, fl) in jobs:
+        for (i, j, prog, fl, bf) in jobs:
             R = c06.CacheSet(E, "ref", base)
-            root = E.write_module("src%d" % i, prog.render()); roots[i] = root
-            b = E.run_garble(fl, ["build", "-o", "ref_%d" % j, "."], root, R.env())
+            files = dict(prog.render())
+            if i == 0:
+                files["zz_injected.go"] = "package main\n\nimport \"os\"\n\nvar gvInjected = \"not injected\"\n\nfunc init() {\n\tif len(os.Args) > 7 {\n\t\tprintln(gvInjected)\n\t}\n}\n"
+            root = E.write_module("src%d" % i, files); roots[i] = root
+            b = E.run_garble(fl, ["build"] + bf + ["-o", "ref_%d" % j, "."], root, R.env())
             if b.returncode != 0:
                 raise RuntimeError("reference build failed: " + b.stderr[-500:])
             refs[(i, j)] = e2e.sha256_file(os.path.join(root, "ref_%d" % j))
@@ -54,11 +62,11 @@ def main(tier, replay=None):
             # every job twice (identical concurrent builds) plus the others, all at once, sharing GOCACHE, GARBLE_CACHE and TMPDIR
             procs = []
             for rep in range(2):
-                for (i, j, prog, fl) in jobs:
+                for (i, j, prog, fl, bf) in jobs:
                     out = "conc_%d_%d_%d" % (i, j, rep)
-                    p = subprocess.Popen([E.garble] + fl + ["build", "-p", str(par), "-o", out, "."], cwd=roots[i], env=E.env(C.env()),
+                    p = subprocess.Popen([E.garble] + fl + ["build", "-p", str(par)] + bf + ["-o", out, "."], cwd=roots[i], env=E.env(C.env()),
                                          stdout=subprocess.PIPE, stderr=subprocess.PIPE, text=True)
-                    procs.append((p, i, j, out, fl))
+                    procs.append((p, i, j, out, fl + bf))
             st["scenarios"] += 1
             for (p, i, j, out, fl) in procs:
                 so, se = p.communicate(timeout=900)
